@@ -3,3 +3,9 @@ import FerrousSpec.Model.Bytes
 import FerrousSpec.Model.Resp
 import FerrousSpec.Drv.Resp
 import FerrousSpec.Props.C20
+import FerrousSpec.Model.PubSub
+import FerrousSpec.Drv.PubSub
+import FerrousSpec.Props.C14
+import FerrousSpec.Model.Stream
+import FerrousSpec.Drv.Stream
+import FerrousSpec.Props.C15
